@@ -74,6 +74,26 @@ CLAIMED = {
    text="217 [305] contents x 21 producer paths (literal, + at every split incl. with [], slices, [v; n] incl. n = 0, ~ $], partition sides, ? p $], ? T $], any-typed parameter, union-typed cell, indexing) under 4 wrappers: the specification predicts x == y, x != y, y == x and the selected match arm from content alone (law ProducersDenote); 180 614 [806 412] programs and 423 801 [837 225] API-level comparisons (incl. hidden element types forced through Array::new_with_type) must agree; 3 000 [150 000] recorded random comparisons are recomputed by Trace_Eq.",
    design_ref="§3.3, §6 C19",
    note="floats on a modelled domain (no arithmetic involved); contents nested to depth 3"),
+ "C03": dict(
+   technique="TLA+ specification of the syntax space (spec/Syntax.tla: token alphabet, untyped abstract grammar with 149 forms, binding contexts, mutation operators, folding sub-suite) whose outcome machine has the two states Program / Error and no panic state; TLC's state graph (token sequences, ASTs and folding cases under construction) IS the case set; every state is rendered and fed to Code::parse / Variable::from_str / Type::from_str in watched worker processes",
+   text="State = token sequence, AST or folding case under construction; actions append a token, apply a constructor, pick a failing seed, wrap it in a live or dead position, or apply a mutation to a tokenised corpus program. Invariants keep every emitted case inside the domain and attach the predicted outcome class (Program, Error of a given class for folding failures, or either). The harness runs every case (934 966 [13.3 M] runs: all token sequences of length <= 2 [all core triples], all one- and two-child ASTs over 29 leaves incl. a never-typed leaf, rebind contexts, single-token deletions / duplications / replacements of 411 [1 611] programs, [random walks to depth 5, 33 300 byte/char mutants]) in child processes; a panic, abort or hang is a violation grouped by panic location.",
+   design_ref="§6 C03",
+   note="the specification enumerates the syntax space and classifies outcomes; it does not model pest's matching algorithm; nesting capped at 40; accepted programs are not executed here (C02); self-import (stack exhaustion) is classified as resource exhaustion"),
+ "C14": dict(
+   technique="TLA+ specification of the 14-level table (spec/Prec.tla): declarative Group, unique-admissible-tree formulation and a precedence-climbing shift/reduce machine checked equal by TLC on every case; Lex (maximal munch); cases replayed structurally through the real grammar and the real PRATT_PARSER, by value through Code::parse/exec with operand values TLC searched so that groupings differ; recorded long expressions re-grouped by TLC (MC_PrecTrace)",
+   text="TLC explores the shift/reduce machine over all ordered pairs of the 35 binary operators, all triples whose levels are not all distinct plus a sample [all 42 875], prefix x binary, prefix x postfix, postfix x binary, postfix x postfix and operator adjacencies with and without blanks (40 021 [370 541] cases), with invariants: tokens used once, the machine's tree = Group = the unique admissible tree, Lex lossless and maximal. The harness drives SimpleSLParser + PRATT_PARSER with string-building callbacks and compares the parenthesised tree; 793 [1 286] by-value cases (operands chosen by TLC so that every other grouping is rejected or yields a different value / cell content) are executed as constants and as function parameters; 3 000 [30 000] random long expressions parsed by the implementation are re-grouped by the specification.",
+   design_ref="§3.4, §6 C14",
+   note="shapes the table does not settle are excluded by name in the spec (`? !`, `$ init` swallowing a following binary operator, comment openers, two prefix operators in a row); `$]` is taken as a level-3 postfix reducer"),
+ "C15": dict(
+   technique="TLA+ specification of type printing and parsing (spec/Print.tla: PrintType under every ordering of union members / struct fields, PrintSet, a PEG transcription ParseType); TLC checks RoundTrip, Unambiguous, ParensNeeded, ParsePrintsBack over the MC_Types universe plus look-alikes and nesting contexts; every text of every PrintSet parsed by Type::from_str, printed texts of independently built instances checked to be in PrintSet, `it ? T` programs executed; random types printed by the implementation validated by MC_PrintTrace",
+   text="For 2 125 [18 533] types TLC writes all orderings (4 735 [51 314] texts); the implementation must parse each back to an equal type, print (13 235 [199 578] instances with rotated member orders) only texts of the PrintSet, select exactly the matching elements of a 98-value pool in `pool~ ? T $]`, and reject or differently parse 6 003 [34 058] near-miss texts as the specification's parser does; 500 [9 000] random types to depth 6 printed by the implementation are re-parsed by TLC.",
+   design_ref="§3.5, §6 C15",
+   note="the type parser model works on tokens (lexical issues such as keyword prefixes are outside it); types whose members have no default value skip the `? T` stage (same class as the known `it ? !` finding)"),
+ "C20": dict(
+   technique="TLA+ specification of value rendering structure and literal forms (Print.tla part 2: PrintVal, the two readers for value literals and programs, FromDigits on limbs with overflow detection); TLC checks LitRoundTrip, ProgRoundTrip, MinIntOnly, LitPrintsBack and enumerates nested values over boundary leaf tables and every integer literal form; each replayed through Variable's Debug rendering, Variable::from_str and Code::parse/exec; random values printed by the implementation validated by MC_PrintValTrace",
+   text="4 069 [28 941] nested values (depth <= 3, one spine to 6) over leaf tables (11 ints incl. MIN/MAX, 56 float bit patterns incl. -0.0, subnormals, 1e308, 44 strings incl. quotes, backslashes, NUL+digit, C0/C1 controls, combining marks, non-BMP) must satisfy from_str(debug(v)) == v with equal type tag and, except MIN_INT, exec(parse(debug(v))) == v; 1 252 [3 534] literal forms (decimal, 0b, 0o, 0x, underscores) denote FromDigits' value or are rejected as too big; 2 500 [60 000] random values are validated by TLC.",
+   design_ref="§3.5, §6 C20",
+   note="digit-level float formatting and the escape alphabet are encode/decode fidelity that TLA+ does not express: the specification fixes structure and leaf table, the oracle for a leaf is the round-trip equation itself"),
 }
 
 NOT_YET = {}
